@@ -30,15 +30,16 @@ def build_cli():
 
 
 class Server(threading.Thread):
-    """UDP server answering the n-th request with the n-th datagram"""
+    """UDP server answering the n-th request with the next bursts[n] datagrams (default: one each)"""
 
-    def __init__(self, deliveries):
+    def __init__(self, deliveries, bursts=None):
         super().__init__(daemon=True)
         self.sock = socket.socket(socket.AF_INET, socket.SOCK_DGRAM)
         self.sock.bind(("127.0.0.1", 0))
         self.sock.settimeout(0.05)
         self.port = self.sock.getsockname()[1]
         self.deliveries = list(deliveries)
+        self.bursts = list(bursts) if bursts is not None else None
         self.stop = False
 
     def run(self):
@@ -50,9 +51,16 @@ class Server(threading.Thread):
                 continue
             except OSError:
                 return
-            if i < len(self.deliveries) and self.deliveries[i] is not None:
-                self.sock.sendto(self.deliveries[i], frm)
-            i += 1
+            if self.bursts is None:
+                if i < len(self.deliveries) and self.deliveries[i] is not None:
+                    self.sock.sendto(self.deliveries[i], frm)
+                i += 1
+            else:
+                n = self.bursts.pop(0) if self.bursts else 0
+                for d in self.deliveries[i:i + n]:
+                    if d is not None:
+                        self.sock.sendto(d, frm)
+                i += n
 
     def close(self):
         self.stop = True
@@ -328,6 +336,39 @@ def run(rep, tier, seed, replay=None):
             picked += 1
             if picked >= per:
                 break
+    # one LARGE reply per game: the rules of the first exchange replaced by ~2500 rules sent as an uncompressed Source split
+    # (the documents then exceed 64 KiB: block-wise encoders, buffers and line handling of the output formats see more than one block)
+    def big_rules_variant(c, v):
+        seg = v.seg()
+        ch = [int(x) for x in v.tags["CH"].split(",")]
+        if seg[2] == 0 or not c.args[1].startswith("S:") or c.args[1] == "S:240":
+            return None
+        ds = c.script[0]
+        start = seg[0] + seg[1]
+        n = 2500
+        payload = b"\xff\xff\xff\xffE" + n.to_bytes(2, "little") + b"".join(
+            f"sv_rule_{k:05d}".encode() + b"\0" + f"value of rule {k} \u00e9\u20ac".encode() + b"\0" for k in range(n))
+        chunks = [payload[i:i + 1200] for i in range(0, len(payload), 1200)]
+        if len(chunks) > 255:
+            return None
+        frags = [b"\xfe\xff\xff\xff" + (77).to_bytes(4, "little") + bytes([len(chunks), i]) + (1248).to_bytes(2, "little") + ch_
+                 for i, ch_ in enumerate(chunks)]
+        c2 = c.clone()
+        c2.script[0] = ds[:start + ch[2]] + frags + ds[start + seg[2]:]
+        return c2
+
+    big = []
+    for gid, eng, gather in GAMES[:2]:
+        for raw in vlib.model_gen("valvefor", seed + 19, per * 6, extra=[eng, gather]):
+            v = netprops.Valid(raw, "valve")
+            c = v.case()
+            if v.notwf or not v.want.startswith("OK") or any(d is not None and d[:4] == b"\xfe\xff\xff\xff" for d in c.script[0]):
+                continue
+            c2 = big_rules_variant(c, v)
+            if c2 is not None:
+                big.append((gid, f"{v.id}big", c2))
+                break
+    jobs += big
     # the library's own response for each exchange (in-process, scripted transport)
     lib_lines = [f"{cid}{gid} valve {c.args[0]} {c.args[1]} {c.args[2]} 0 {c.fmt_script()}" for gid, cid, c in jobs]
     lib_out, _ = vlib.run_impl(lib_lines, tag="c19")
@@ -340,10 +381,17 @@ def run(rep, tier, seed, replay=None):
         dump_raw = bytes.fromhex(lib_line[lib_line.rfind(" ;; V") + 5:])
         expected = {"generic": dump["json"], "protocol-specific": {"Valve": dump["self"]}}
         srv_deliveries = list(c.script[0])
+        # how many datagrams answer each request: read off the library's own transport trace of the same exchange
+        bursts = []
+        for e in vlib.trace_of(lib_line):
+            if e.startswith("S"):
+                bursts.append(0)
+            elif e.startswith("R") and not e.endswith(":T") and bursts:
+                bursts[-1] += 1
         json_docs = {}
         for mode in MODES:
             for fmt in FORMATS:
-                srv = Server(srv_deliveries)
+                srv = Server(srv_deliveries, bursts)
                 srv.start()
                 try:
                     rc, out, err = run_cli(["query", "-g", gid, "-i", "127.0.0.1", "-p", str(srv.port), "-f", fmt, "-o", mode, "--read-timeout", "2"])
